@@ -295,6 +295,18 @@ class MultiKeyLookup:
             obj_ref.index_dict.rm_key(obj_ref.key, obj)
         del self._object_ids[id(obj)]
 
+    def _update_indices(self, obj: Any):
+        old_refs = list(self._object_ids.get(id(obj), []))
+        self._rm_indices(obj)
+        try:
+            self._mk_indices(obj)
+        except Exception:
+            # rejected update (e.g. duplicate key in a unique index): obj keeps the index entries it had before
+            for obj_ref in old_refs:
+                obj_ref.index_dict.setdefault(obj_ref.key, []).append(obj)
+            self._object_ids[id(obj)].extend(old_refs)
+            raise
+
     def remove_object(self, obj: Any):
         """Remove object from table.
 
@@ -344,16 +356,14 @@ class MultiKeyLookup:
             msg = f'object {obj} not known'
             raise ValueError(msg)
         with self._lock:
-            self._rm_indices(obj)
-            self._mk_indices(obj)
+            self._update_indices(obj)
 
     def update_object_no_lock(self, obj: Any):
         """Update indices according to current values in obj without using lock."""
         if obj not in self._objects:
             msg = f'object {obj} not known'
             raise ValueError(msg)
-        self._rm_indices(obj)
-        self._mk_indices(obj)
+        self._update_indices(obj)
 
     def update_objects(self, objs: list[Any]):
         """Update indices according to current values in objs."""
@@ -367,8 +377,7 @@ class MultiKeyLookup:
                 msg = f'object {obj} not known'
                 raise ValueError(msg)
             with self._lock:
-                self._rm_indices(obj)
-                self._mk_indices(obj)
+                self._update_indices(obj)
 
     def clear(self):
         """Remove all objects from table."""
